@@ -126,6 +126,13 @@ def check_case(ctx, c):
         if name == "CountFeatureCompression" and p.get("algorithm") == "arpack":
             return ctx.skip("arpack keeps k < rank components")
     tol = z.tol
+    if z.svd:
+        # randomized SVD + division by sqrt(singular values): relative accuracy ~1e-8 * condition number
+        sv = getattr(e1, "singular_values_", None)
+        if sv is None:
+            sv = getattr(e1, "component_scaling_", None)
+        if sv is not None and np.size(sv) and np.min(np.abs(sv)) > 0:
+            tol = max(tol, min(1e-5, 1e-8 * float(np.max(np.abs(sv)) / np.min(np.abs(sv))) ** 2))
     if z.svd and p.get("memory_size") in ("64", "200", "1k", "4k"):
         tol = 2e-6  # multi-block fits spill their blocks as float32 before the SVD
     exact = False
